@@ -120,3 +120,141 @@ func c13TailStream(t *rapid.T) {
 func TestVerifC13_ProcTailStream(t *testing.T) {
 	rapid.Check(t, c13TailStream)
 }
+
+// The input is replaced (reload, reload-sync) after lines were taken off the list with the
+// exclude action and after searches were finished on the previous input, and earlier queries are
+// typed again: whenever the session is quiescent the list is the filter of exactly the lines of
+// the input now loaded, less the lines excluded since it was loaded - nothing computed for the
+// previous input (results, patterns, exclusions) comes back.
+func c13ReplacedInput(t *rapid.T) {
+	dir, err := os.MkdirTemp(workDir, "c13r")
+	if err != nil {
+		infra(t, "%v", err)
+	}
+	defer os.RemoveAll(dir)
+	inputs := map[string][]string{}
+	for _, name := range []string{"a", "b", "c"} {
+		n := rapid.SampledFrom([]int{0, 4, 12, 40, 130, 260}).Draw(t, "size-"+name)
+		var ls []string
+		for i := 0; i < n; i++ {
+			ls = append(ls, fmt.Sprintf("%s-item-%04d", name, i*7%1000))
+		}
+		inputs[name] = ls
+		data := strings.Join(ls, "\n")
+		if n > 0 {
+			data += "\n"
+		}
+		os.WriteFile(filepath.Join(dir, name), []byte(data), 0o644)
+	}
+	loaded := inputs["a"]
+	s := StartSession(t, SessionCfg{Args: []string{"--no-mouse", "--no-sort"}, InputCmd: "cat " + shQuote(filepath.Join(dir, "a")), Width: 60, Height: 12})
+	defer s.Close()
+	query := ""
+	excluded := map[string]bool{}
+	history := []string{"fzf --no-sort  < a"}
+	var want []string
+	converge := func(step string) {
+		want = nil
+		for _, l := range loaded {
+			if !excluded[l] && simpleFuzzy(query, l) {
+				want = append(want, l)
+			}
+		}
+		pred := func(st *Status) bool {
+			if st.Reading || st.Query != query || st.TotalCount != len(loaded) || st.MatchCount != len(want) || len(st.Matches) != len(want) {
+				return false
+			}
+			for i, m := range st.Matches {
+				if m.Text != want[i] {
+					return false
+				}
+			}
+			return true
+		}
+		if st, ok := s.WaitFor(1000, pred); !ok {
+			if pt := s.panicText(); pt != "" {
+				t.Fatalf("fzf crashed after %s\nhistory:\n  %s\n%s", step, strings.Join(history, "\n  "), pt)
+			}
+			var got []string
+			if st != nil {
+				for _, m := range st.Matches {
+					got = append(got, m.Text)
+				}
+			}
+			t.Fatalf("%s: the list is not the filter of the %d lines now loaded (less the %d excluded since)\nquery %q\nexpected %d lines %q\nobserved %d lines %q (%s)\nhistory:\n  %s", step, len(loaded), len(excluded), query, len(want), clipList(want), len(got), clipList(got), describe(st), strings.Join(history, "\n  "))
+		}
+	}
+	converge("start")
+	exclusions, reloadsAfterExclusion, revisited, generation := 0, 0, false, 0
+	seenSinceExclusion := map[string]bool{}
+	steps := rapid.IntRange(4, 14).Draw(t, "steps")
+	for i := 0; i < steps; i++ {
+		switch rapid.SampledFrom([]string{"query", "query", "query", "exclude", "exclude", "reload", "reload"}).Draw(t, "op") {
+		case "query":
+			q := rapid.SampledFrom([]string{"", "", "1", "7", "00", "item", "a-", "b-"}).Draw(t, "query")
+			if q == query {
+				continue
+			}
+			query = q
+			history = append(history, "POST change-query("+q+")")
+			s.Post("change-query(" + q + ")")
+			if exclusions > 0 {
+				seenSinceExclusion[q] = true
+			}
+		case "exclude":
+			converge("before exclude") // the position refers to the list as it is
+			if len(want) == 0 {
+				continue
+			}
+			k := rapid.IntRange(1, imin(len(want), 9)).Draw(t, "pos")
+			excluded[want[k-1]] = true
+			exclusions++
+			seenSinceExclusion[query] = true
+			history = append(history, fmt.Sprintf("POST pos(%d)+exclude   (%s)", k, want[k-1]))
+			s.Post(fmt.Sprintf("pos(%d)+exclude", k))
+		case "reload":
+			name := rapid.SampledFrom([]string{"a", "b", "c"}).Draw(t, "input")
+			action := rapid.SampledFrom([]string{"reload", "reload-sync"}).Draw(t, "how")
+			if len(excluded) > 0 {
+				reloadsAfterExclusion++
+				if seenSinceExclusion[query] {
+					revisited = true
+				}
+			}
+			// every line of the new input carries the number of the reload, so that the new list is
+			// told from the previous one even when the same file is read again
+			generation++
+			loaded = nil
+			for _, l := range inputs[name] {
+				loaded = append(loaded, fmt.Sprintf("%s-g%d", l, generation))
+			}
+			excluded = map[string]bool{}
+			history = append(history, fmt.Sprintf("POST %s(sed 's/$/-g%d/' %s)", action, generation, name))
+			s.Post(fmt.Sprintf("%s(sed 's/$/-g%d/' %s)", action, generation, shQuote(filepath.Join(dir, name))))
+			if rapid.Bool().Draw(t, "settleAfterReload") {
+				converge("after " + action)
+			}
+		}
+		if rapid.IntRange(0, 2).Draw(t, "settle") > 0 {
+			converge(fmt.Sprintf("step %d", i+1))
+		}
+	}
+	converge("end of history")
+	nt := reloadsAfterExclusion > 0 && revisited
+	vstat.Case("C13/proc-replaced-input", strings.Join(history, "|"), nt, fmt.Sprintf("exclusions=%d", imin(exclusions, 3)), fmt.Sprintf("reloads_after_exclusion=%d", imin(reloadsAfterExclusion, 3)))
+	if nt && vstat.WantSample("C13/proc-replaced-input") {
+		vstat.Sample("C13/proc-replaced-input", history)
+	}
+	s.Post("abort")
+}
+
+func clipList(l []string) []string {
+	if len(l) > 12 {
+		return append(append([]string{}, l[:12]...), "...")
+	}
+	return l
+}
+
+func TestVerifC13_ProcReplacedInput(t *testing.T) {
+	rapid.Check(t, c13ReplacedInput)
+}
